@@ -342,7 +342,10 @@ class NestedExtensionArray(ExtensionArray):
         # We cannot use pa.compute.replace_with_mask(), it is not implemented for struct arrays:
         # https://github.com/apache/arrow/issues/29558
         # self._chunked_array = pa.compute.replace_with_mask(self._chunked_array, pa_mask, value)
-        self._chunked_array = replace_with_mask(self._chunked_array, pa_mask, value)
+        # a missing row among the assigned values may still span elements of its value buffers
+        self._chunked_array = self._drop_hidden_elements(
+            replace_with_mask(self._chunked_array, pa_mask, value)
+        )
         if _VERIF:
             _verif_observe("__setitem__", self)
 
